@@ -31,14 +31,14 @@ AD == All \/ Der
 Ident(i, w) == 1000 * i + w                                  \* row i (1-based), world channel w
 
 NewFrame(F, T, asc, lo, t0, src) ==
-    [F |-> F, T |-> T, asc |-> asc, lo |-> lo, t0 |-> t0, src |-> src, wf |-> FALSE, tsoff |-> 0, tsgap |-> 0,
+    [F |-> F, T |-> T, asc |-> asc, lo |-> lo, t0 |-> t0, src |-> src, wf |-> FALSE, tsoff |-> 0, tsgap |-> 0, reg0 |-> TRUE,
      data |-> [i \in 1..T |-> [j \in 1..F |-> Ident(i, lo + j - 1)]]]
 
 (* round(n / 4) to the nearest integer, ties to even (numpy) *)
 RoundQ(n) == LET f == n \div 4  r == n % 4 IN
              IF r < 2 THEN f ELSE IF r > 2 THEN f + 1 ELSE IF f % 2 = 0 THEN f ELSE f + 1
 
-Proj(f) == [F |-> f.F, T |-> f.T, asc |-> f.asc, lo |-> f.lo, t0 |-> f.t0, src |-> f.src, data |-> f.data, tsoff |-> f.tsoff, tsgap |-> f.tsgap]
+Proj(f) == [F |-> f.F, T |-> f.T, asc |-> f.asc, lo |-> f.lo, t0 |-> f.t0, src |-> f.src, data |-> f.data, tsoff |-> f.tsoff, tsgap |-> f.tsgap, reg0 |-> f.reg0]
 
 Active == Len(hist) < MaxOps
 Room == Len(objs) < MaxObjs
@@ -165,7 +165,8 @@ LoadSub(k, l, r) ==
 LoadT(k, a, b) ==
     /\ ~Der /\ Active /\ Room /\ k \in 1..Len(files) /\ 0 <= a /\ a < b /\ b <= files[k].frame.T
     /\ LET f == files[k].frame
-           g == [f EXCEPT !.T = b - a, !.tsoff = 0, !.tsgap = 0, !.data = [i \in 1..b - a |-> f.data[a + i]]] IN
+           g == [f EXCEPT !.T = b - a, !.tsoff = 0, !.tsgap = 0, !.data = [i \in 1..b - a |-> f.data[a + i]],
+                          !.reg0 = (f.reg0 /\ (a = 0 \/ \A j \in 1..f.F : (f.data[a + 1][j] % 250000) % 1000 = f.lo + j - 1))] IN
        objs' = Append(objs, g @@ [wf |-> TRUE])
     /\ last' = [st |-> "ok"] /\ UNCHANGED files
     /\ Log([name |-> "LoadT", file |-> k, a |-> a, b |-> b], [st |-> "ok"])
@@ -204,8 +205,10 @@ WellFormed(f) == /\ f.F >= 1 /\ f.lo >= 0 /\ f.lo + f.F <= World
                  /\ \A i \in 1..f.T, j \in 1..f.F : (f.data[i][j] % 250000) % 1000 \in 0..World - 1
 (* C03: a file holds exactly the frame that was saved; loading gives it back *)
 SaveLoadFaithful == \A k \in 1..Len(objs) : WellFormed(objs[k])
-(* C17: row 0 of every frame keeps its pixels at their original frequencies: column j of row 1 carries world channel lo + j - 1 *)
-Row0Registered == \A k \in 1..Len(objs) : \A j \in 1..objs[k].F : (objs[k].data[1][j] % 250000) % 1000 = objs[k].lo + j - 1
+(* C17: row 0 of every frame keeps its pixels at their original frequencies: column j of row 1 carries world channel lo + j - 1
+   (reg0: the frame's first row is the first row of its lineage -- a time-selected load of a de-drifted file starts at a
+   row that de-drifting has legitimately shifted) *)
+Row0Registered == \A k \in 1..Len(objs) : objs[k].reg0 => \A j \in 1..objs[k].F : (objs[k].data[1][j] % 250000) % 1000 = objs[k].lo + j - 1
 (* C17: de-drifting maps a constant-drift line onto (almost) one column: consecutive rows of the de-drifted frame differ
    from the parent's drift line by at most one channel -- expressed on identities: row i holds world channels shifted by
    the row's offset, which never decreases and never jumps by more than ceil(|q| / 4) *)
